@@ -263,7 +263,7 @@ func vC16Doc(people int) (*gedcom.Document, string) {
 	for i := 0; i < people; i++ {
 		id := string(rune('1' + i))
 		text += "0 @I" + id + "@ INDI\n"
-		text += "1 NAME " + VsBytesIn("given"+id, 1, "AaBb 1") + " /" + VsBytesIn("sur"+id, 1, "AaSs9") + "/\n"
+		text += "1 NAME " + VsBytesIn("given"+id, 1, "AaBb 1") + " /" + VsBytesIn("sur"+id, 1, "Aa9") + "/\n"
 		if i%2 == 0 {
 			text += "1 BIRT\n2 DATE 18" + id + "0\n2 PLAC P" + id + "\n"
 		}
@@ -429,14 +429,14 @@ var vC16Cases = []vC16Case{
 		out = append(out, all...)
 		return out
 	}},
-	{".Individuals | NodesWithTagPath(BIRT, DATE)", func(d *gedcom.Document, n int, lit string) interface{} {
+	{".Individuals | NodesWithTagPath(\"BIRT\", \"DATE\")", func(d *gedcom.Document, n int, lit string) interface{} {
 		out := gedcom.Nodes{}
 		for _, i := range d.Individuals() {
 			out = append(out, vC16TagPath(i, gedcom.TagBirth, gedcom.TagDate)...)
 		}
 		return out
 	}},
-	{".Individuals | NodesWithTagPath(BIRT)", func(d *gedcom.Document, n int, lit string) interface{} {
+	{".Individuals | NodesWithTagPath(\"BIRT\")", func(d *gedcom.Document, n int, lit string) interface{} {
 		out := gedcom.Nodes{}
 		for _, i := range d.Individuals() {
 			out = append(out, vC16TagPath(i, gedcom.TagBirth)...)
@@ -454,6 +454,15 @@ var vC16Cases = []vC16Case{
 		all := vC16Names(d)
 		return all[len(all)-vC16Min(n, len(all)):]
 	}},
+}
+
+// vC16Norm: a nil list and an empty list are the same result.
+func vC16Norm(json string) string {
+	json = strings.TrimSpace(json)
+	if json == "null" {
+		return "[]"
+	}
+	return json
 }
 
 func vC16Fill(query string, n int, lit string) string {
@@ -475,7 +484,7 @@ func VerifC16_Functions(cs int) {
 	}
 	lit := ""
 	if strings.Contains(c.query, "%s") {
-		lit = VsBytesIn("lit", 1, "AaSs9 ")
+		lit = VsBytesIn("lit", 1, "Aa9 ")
 	}
 	query := vC16Fill(c.query, n, lit)
 	want := vQJSON(c.ref(d, n, lit))
@@ -485,24 +494,24 @@ func VerifC16_Functions(cs int) {
 	VsObserve(want)
 	VsReach("query-compared-with-the-go-api")
 	VsAssert("well-typed-query-evaluates", ok)
-	VsAssert("query-result-equals-the-go-api", got == want)
+	VsAssert("query-result-equals-the-go-api", vC16Norm(got) == vC16Norm(want))
 }
 
 // ---------- algebraic identities and determinism ----------
 
-var vC16Exprs = []string{".Individuals", ".Individuals | .Name | .String", ".Families", ".Individuals | First(%n)",
-	".Individuals | Last(%n)", ".Individuals | Only(.Name | .Surname = \"%s\")", ".Individuals | NodesWithTagPath(BIRT)"}
+var vC16Exprs = []string{".Individuals", ".Individuals | .Name", ".Families", ".Individuals | First(%n)",
+	".Individuals | Last(%n)", ".Individuals | Only(.Name | .Surname = \"%s\")", ".Individuals | NodesWithTagPath(\"BIRT\")"}
 
-var vC16Stages = []string{"Length", "First(%n)", "Last(1)", ".String", "{ s: .String }", "?"}
+var vC16Stages = []string{"Length", "First(%n)", "Last(1)", ".String", "{ s: .String }"}
 
 // VerifC16_Algebra: cs%len(exprs) = expression E, cs/len(exprs)%5 = people.
 func VerifC16_Algebra(cs int) {
 	e := vC16Exprs[cs%len(vC16Exprs)]
-	people := cs / len(vC16Exprs) % 5
+	people := cs / len(vC16Exprs) % 4
 	d, _ := vC16Doc(people)
 	docs := []*gedcom.Document{d}
 	n := VsInt("n", 0, 9)
-	lit := VsBytesIn("lit", 1, "AaSs9 ")
+	lit := VsBytesIn("lit", 1, "Aa9 ")
 	e = vC16Fill(e, n, lit)
 	stage := vC16Fill(vC16Stages[VsChoose("stage", len(vC16Stages))], n, lit)
 
